@@ -56,7 +56,7 @@ def main():
                       "harness); checks set FIDELITY_MABWISER_VERIF=1 but the library does not read it",
             "baseline_off_cmd": "cd /repo && /venv/bin/python -m pytest -ra -q -p no:cacheprovider --timeout=900 "
                                 "--continue-on-collection-errors",
-            "source_commits": list(reversed(fix_commits)),
+            "source_commits": [],
             "add_only": True,
         },
         "engines": [{
@@ -72,7 +72,9 @@ def main():
         "not_applicable": na,
         "notes": "Every check: exit 0 held / exit 1 with VIOLATION lines / exit 2 harness error. VERIF_SEED selects "
                  "the Hypothesis seeds; VERIF_REPO (default /repo) selects the tree under test. Known findings "
-                 "and fixed defects are listed in known_findings.json.",
+                 "and fixed defects are listed in known_findings.json. No hook or instrumentation commit exists in /repo "
+                 "(hooks.source_commits is empty); the unguarded 'fix:' commits that repair genuine defects are, oldest "
+                 "first: " + ", ".join(c[:10] for c in reversed(fix_commits)) + ".",
     }
     with open(os.path.join(HERE, "MANIFEST.json"), "w") as f:
         json.dump(manifest, f, indent=1)
